@@ -227,7 +227,7 @@ func memLimitKB() int64 {
 func spawn(exe string, args []string, timeout time.Duration) (exit int, tail string) {
 	sh := fmt.Sprintf("ulimit -v %d; exec \"$0\" \"$@\"", memLimitKB())
 	cmd := exec.Command("sh", append([]string{"-c", sh, exe}, args...)...)
-	cmd.Env = append(os.Environ(), "GOMAXPROCS=2", "GOMEMLIMIT=3GiB", "GOTRACEBACK=single")
+	cmd.Env = append(os.Environ(), "GOMAXPROCS=2", "GOMEMLIMIT=3GiB", "GOTRACEBACK=single", "GORACE=halt_on_error=1")
 	var buf tailBuf
 	cmd.Stdout = &buf
 	cmd.Stderr = &buf
@@ -345,12 +345,23 @@ func Coordinate(propID, tier string) int {
 				out := filepath.Join(scratch, fmt.Sprintf("u%d.json", ui))
 				args := []string{"--worker", propID, tier, u.Name, "--out", out, "--deadline", strconv.FormatInt(deadline.Unix(), 10), "--seed", strconv.FormatInt(seed, 10)}
 				wd := time.Until(deadline) + 5*time.Minute
-				exit, tail := spawn(exe, args, wd)
+				uexe := exe
+				if u.Binary != "" {
+					uexe = exe + "-" + u.Binary
+					if _, err := os.Stat(uexe); err != nil {
+						mu.Lock()
+						m.Notes = append(m.Notes, "binary "+uexe+" missing: unit "+u.Name+" not run")
+						m.Exhaustive = false
+						mu.Unlock()
+						continue
+					}
+				}
+				exit, tail := spawn(uexe, args, wd)
 				r := readResult(out)
 				if exit != 0 || r == nil {
 					// the worker died: re-run with a journal to attribute the crash to the case in flight
 					jpath := filepath.Join(scratch, fmt.Sprintf("u%d.journal", ui))
-					exit2, tail2 := spawn(exe, append(args, "--journal", jpath), wd)
+					exit2, tail2 := spawn(uexe, append(args, "--journal", jpath), wd)
 					r2 := readResult(out)
 					if exit2 == 0 && r2 != nil {
 						// did not reproduce: a crash that does not reproduce is not believed, but recorded
